@@ -95,6 +95,18 @@ def phase1(seed, scratch):
             shutil.rmtree(SCRATCH, ignore_errors=True)
     return meta
 
+def phase1_checks_only(seed):
+    """--checks-only: keep the suite / demonstration results of the last full validation (the
+    subject's HEAD is recorded in what_was_run), verify that the patch still applies"""
+    d = os.path.join(SEEDS, seed)
+    meta = json.load(open(os.path.join(d, "meta.json")))
+    meta["suite_and_demo_validated_by"] = meta.get("suite_and_demo_validated_by") or meta.get("what_was_run")
+    rc, out = sh("git -C /repo apply --check %s" % os.path.join(d, "patch.diff"))
+    meta["applies_to_repo_head"] = (rc == 0)
+    if rc != 0:
+        meta["apply_error"] = out[-400:]
+    return meta
+
 def phase2(seed, meta, thorough):
     """the checks, on /repo itself (serial)"""
     d = os.path.join(SEEDS, seed)
@@ -134,7 +146,10 @@ def main():
         if a.startswith("--jobs="):
             jobs = int(a.split("=")[1])
     import concurrent.futures
-    with concurrent.futures.ThreadPoolExecutor(max_workers=jobs) as ex:
+    if "--checks-only" in sys.argv:
+        metas = {s: phase1_checks_only(s) for s in seeds}
+    else:
+      with concurrent.futures.ThreadPoolExecutor(max_workers=jobs) as ex:
         futs = {s: ex.submit(phase1, s, "%s-%d" % (SCRATCH, k)) for k, s in enumerate(seeds)}
         metas = {s: f.result() for s, f in futs.items()}
     print("phase 1 done", flush=True)
